@@ -91,12 +91,20 @@ class Engine(HeapMixin, ExprMixin, StmtMixin, CallMixin, BuiltinMixin):
             if r == z3.unsat:
                 verdict, model = 'proved', None
             elif r == z3.sat:
-                verdict = 'refuted'
+                # confirm with the exact (nonlinear) facts behind the PYMUL abstraction
                 p.solver.push()
                 p.solver.add(z3.Not(goal))
+                for f in p.__dict__.get('exact_facts', []):
+                    p.solver.add(f)
                 p.solver.set('timeout', self.timeout_ms)
-                p.solver.check()
-                model = self.extract_model(p.solver.model())
+                r2 = p.solver.check()
+                if r2 == z3.sat:
+                    verdict = 'refuted'
+                    model = self.extract_model(p.solver.model())
+                elif r2 == z3.unsat:
+                    verdict, model = 'proved', None
+                else:
+                    verdict, model = 'unknown', None
                 p.solver.pop()
                 p.solver.set('timeout', self.feas_timeout_ms)
             else:
